@@ -34,11 +34,15 @@ class SFunc:
         return f"<SFunc {self.qualname}>"
 
 
+KNOWN_DECORATORS = {"property", "classmethod", "staticmethod", "abc.abstractmethod", "abstractmethod"}
+
+
 class SClass:
     def __init__(self, name, node, module):
         self.name, self.node, self.module = name, node, module
         self.methods, self.props, self.setters = {}, {}, {}
         self.classmethods, self.staticmethods = set(), set()
+        self.cached_props, self.decorated = set(), {}
         self.class_attrs = {}  # name -> ast expr (evaluated lazily by interp)
         self._bases = None
         self._mro = None
@@ -49,7 +53,11 @@ class SClass:
                 continue
             if isinstance(it, ast.FunctionDef):
                 decs = [ast.unparse(d) for d in it.decorator_list]
-                if "property" in decs:
+                if any(d.split(".")[-1] == "cached_property" for d in decs):
+                    # functools.cached_property: computed on first access, then an ordinary instance attribute
+                    self.props[it.name] = it
+                    self.cached_props.add(it.name)
+                elif "property" in decs:
                     self.props[it.name] = it
                 elif any(d.endswith(".setter") for d in decs):
                     self.setters[it.name] = it
@@ -59,6 +67,10 @@ class SClass:
                         self.classmethods.add(it.name)
                     if "staticmethod" in decs:
                         self.staticmethods.add(it.name)
+                    other = [d for d in it.decorator_list if ast.unparse(d) not in KNOWN_DECORATORS]
+                    if other:
+                        # applied by the interpreter the first time the method is looked up
+                        self.decorated[it.name] = other
             elif isinstance(it, ast.Assign) and len(it.targets) == 1 and isinstance(it.targets[0], ast.Name):
                 self.class_attrs[it.targets[0].id] = it.value
 
@@ -237,9 +249,10 @@ class Repo:
         if kind == "class":
             v = SClass(name, payload, module)
         elif kind == "func":
-            v = SFunc(payload, module)
+            # a decorated function is what its decorators return: evaluated (once) by the interpreter
+            v = ("lazy-assign", payload, module) if payload.decorator_list else SFunc(payload, module)
         elif kind == "assign":
-            v = ("lazy-assign", payload)
+            v = ("lazy-assign", payload, module)
         elif kind == "import":
             v = self.import_module(payload)
         else:
